@@ -243,6 +243,55 @@ let nontrivial_json (j : json) : bool =
   | JObj kvs -> List.exists (fun (_, v) -> match v with JArr (_ :: _) -> true | _ -> false) kvs
   | _ -> false
 
+(* ---- what C13 leaves open, and inputs no property quantifies over ---- *)
+
+(* a number outside the 32-bit range in the input: no property says what a 33-bit delay means (the code wraps it);
+   a difference on such an input is reported in class LOAD_OUTSIDE_DOMAIN, which no property observes *)
+let rec has_wide_number (j : json) : bool =
+  let wide z = (match z with
+      | Z0 -> false
+      | Zpos _ -> int_of_z z > 2147483647 || int_of_z z < 0
+      | Zneg _ -> int_of_z z < -2147483648 || int_of_z z > 0) in
+  match j with
+  | JNum (Some z) -> (try wide z with _ -> true)
+  | JNum None -> true
+  | JArr l -> List.exists has_wide_number l
+  | JObj kvs -> List.exists (fun (_, v) -> has_wide_number v) kvs
+  | _ -> false
+
+let outside_loads = ref 0
+let reordered_loads = ref 0
+
+(* C13: "source order preserved between DIFFERENT source mappings" - the order of the basic mappings that stem from
+   ONE source mapping (its alias combinations, its letters) is not fixed by the property.  real ~ reference when both
+   are Ok, and cutting both at the lengths of the expansions of the prefixes of the source list gives blocks that
+   are permutations of each other. *)
+let blockwise_perm (j : json) (real : mapping list res) (reference : mapping list res) : bool =
+  match j, real, reference with
+  | JObj kvs, Ok lr, Ok ls when List.length lr = List.length ls && lr <> [] ->
+    (match List.filter (fun (k, _) -> string_of_nlist k = "mappings") kvs with
+     | [ (mk, JArr ms) ] ->
+       let others = List.filter (fun (k, _) -> string_of_nlist k <> "mappings") kvs in
+       let rec prefixes acc pre rest = (match rest with
+           | [] -> List.rev acc
+           | m :: t -> let pre' = pre @ [ m ] in prefixes (pre' :: acc) pre' t) in
+       let lens = List.map (fun pre ->
+           match x_spec_load (JObj (others @ [ (mk, JArr pre) ])) with Ok l -> Some (List.length l) | _ -> None) (prefixes [] [] ms) in
+       if List.exists (fun x -> x = None) lens then false
+       else begin
+         let cuts = List.map (function Some n -> n | None -> 0) lens in
+         let rec take n l = if n = 0 then [] else (match l with [] -> [] | x :: t -> x :: take (n - 1) t) in
+         let rec drop n l = if n = 0 then l else (match l with [] -> [] | _ :: t -> drop (n - 1) t) in
+         let rec remove x l = (match l with [] -> None | y :: t -> if x_layout_eqb [ x ] [ y ] then Some t else (match remove x t with Some t' -> Some (y :: t') | None -> None)) in
+         let rec perm a b = (match a with [] -> b = [] | x :: a' -> (match remove x b with Some b' -> perm a' b' | None -> false)) in
+         let rec go prev cuts = (match cuts with
+             | [] -> true
+             | n :: rest -> n >= prev && perm (take (n - prev) (drop prev lr)) (take (n - prev) (drop prev ls)) && go n rest) in
+         (match List.rev cuts with last :: _ when last = List.length ls -> go 0 cuts | _ -> false)
+       end
+     | _ -> false)
+  | _, _, _ -> false
+
 let check_case (c : case) : unit =
   incr cases;
   match c.j, c.r with
@@ -255,14 +304,20 @@ let check_case (c : case) : unit =
     (* model vs implementation: the loader *)
     let model = x_load j in
     incr load_cmp;
+    let wide = has_wide_number j in
     if not (x_outcome_eqb model real) then begin
-      let (a, b) = diff_str real model in report_diff c "LOAD" a b end;
+      if blockwise_perm j real model then incr reordered_loads
+      else begin
+        let (a, b) = diff_str real model in
+        if wide then begin incr outside_loads; report_diff c "LOAD_OUTSIDE_DOMAIN" a b end else report_diff c "LOAD" a b
+      end
+    end;
     (* C13: the specification against the real answer *)
     (match real with
      | Panic _ -> ()
      | _ ->
        incr checker_runs;
-       if not (x_check_expand j real) then begin
+       if not (x_check_expand j real) && not wide && not (blockwise_perm j real (x_spec_load j)) then begin
          let spec = x_spec_load j in
          let (a, b) = diff_str real spec in report_hit c "C13.expand" a b;
          (* C08 starts from the layout the mapper is GIVEN: an `absorbing` list that the conversion loses or changes
